@@ -2,6 +2,6 @@
    ExtrOcamlBasic only; N/positive/nat stay inductive. *)
 Require Extraction.
 Require Import ExtrOcamlBasic.
-From DV Require Import Lib.Base Fds.Fds Fds.Write.
+From DV Require Import Lib.Base Fds.Fds Fds.Write Fds.MsgApi Wire.Message Fds.ByteLoader.
 Extraction Language OCaml.
-Extraction "model_fds.ml" init step run wf_event held received closed closed_delivered closed_dropped live_ids get_buffer room do_writing wire_fds.
+Extraction "model_fds.ml" init step run wf_event held received closed closed_delivered closed_dropped live_ids get_buffer room do_writing wire_fds linit lstep lib_held file_of find_msg bl_new bread_write u32_at.
